@@ -17,40 +17,50 @@ fn parsed_variant(k: K) -> &'static str {
     }
 }
 
-/// Carrier instruction whose last logical operand has kind `k`: words before the value.
-fn carrier(k: K) -> Option<(&'static str, Vec<u32>)> {
-    Some(match k {
-        K::Decoration => ("Decorate", vec![1]),
-        K::ExecutionMode => ("ExecutionMode", vec![1]),
-        K::ImageOperands => ("ImageSampleExplicitLod", vec![1, 2, 3, 4]),
-        K::LoopControl => ("LoopMerge", vec![1, 2]),
-        K::MemoryAccess => ("Store", vec![1, 2]),
-        K::TensorAddressingOperands => ("CooperativeMatrixStoreTensorNV", vec![1, 2, 3, 0]),
-        _ => return None,
-    })
+/// Carrier instructions whose last logical operand has kind `k`: (opcode name, has result type + id,
+/// operand words before the value). Every carrier is used plain and as the payload of OpSpecConstantOp
+/// (whose operand loop is a separate code path of the parser).
+fn carriers(k: K) -> Vec<(&'static str, bool, Vec<u32>)> {
+    match k {
+        K::Decoration => vec![("Decorate", false, vec![1]), ("MemberDecorate", false, vec![1, 0]), ("DecorateId", false, vec![1])],
+        K::ExecutionMode => vec![("ExecutionMode", false, vec![1]), ("ExecutionModeId", false, vec![1])],
+        K::ImageOperands => vec![("ImageSampleExplicitLod", true, vec![3, 4]), ("ImageSampleImplicitLod", true, vec![3, 4]), ("ImageFetch", true, vec![3, 4]), ("ImageRead", true, vec![3, 4]), ("ImageWrite", false, vec![1, 2, 3])],
+        K::LoopControl => vec![("LoopMerge", false, vec![1, 2])],
+        K::MemoryAccess => vec![("Store", false, vec![1, 2]), ("Load", true, vec![3])],
+        K::TensorAddressingOperands => vec![("CooperativeMatrixStoreTensorNV", false, vec![1, 2, 3, 0])],
+        _ => vec![],
+    }
 }
 
-/// Observes what the parser consumes after value `v` of kind `k`: tries 0..=20 all-zero filler
-/// words and returns (accepted filler counts, variant names delivered after the value for the
-/// smallest accepted count).
-fn observe_parser(k: K, v: u32) -> Result<(Vec<usize>, Vec<String>), String> {
-    let (opname, prefix) = carrier(k).ok_or("no carrier")?;
+/// Observes what the parser consumes after value `v` of kind `k` in carrier number `ci` (plain when
+/// `!wrapped`, else as OpSpecConstantOp payload): tries 0..=20 all-zero filler words and returns (accepted
+/// filler counts, variant names delivered after the value for the smallest accepted count).
+fn observe_parser(k: K, v: u32, ci: usize, wrapped: bool) -> Result<(Vec<usize>, Vec<String>), String> {
+    let cs = carriers(k);
+    let (opname, has_result, prefix) = cs.get(ci).ok_or("no carrier")?;
     let opcode = db().inst(opname).opcode;
     let mut accepted = vec![];
     let mut kinds: Option<Vec<String>> = None;
     for fill in 0..=20usize {
-        let mut w = gram::header_varied(((decls::kind_class(k) as u64) << 40) ^ ((v as u64) << 3) ^ prefix.len() as u64, 100);
-        let wc = 1 + prefix.len() + 1 + fill;
-        w.push(((wc as u32) << 16) | opcode as u32);
-        w.extend(&prefix);
-        w.push(v);
-        w.extend(std::iter::repeat(0).take(fill));
+        let mut w = gram::header_varied(((decls::kind_class(k) as u64) << 40) ^ ((v as u64) << 3) ^ (ci as u64) << 1 ^ wrapped as u64, 100);
+        let mut body: Vec<u32> = vec![];
+        if wrapped {
+            body.extend([90, 91, opcode as u32]);
+        } else if *has_result {
+            body.extend([90, 91]);
+        }
+        body.extend(prefix);
+        body.push(v);
+        body.extend(std::iter::repeat(0).take(fill));
+        let first = (((1 + body.len()) as u32) << 16) | if wrapped { db().inst("SpecConstantOp").opcode as u32 } else { opcode as u32 };
+        w.push(first);
+        w.extend(body);
         let p = rs::parse_rec(&words_to_bytes(&w)).map_err(|p| format!("parser panicked: {}", p.msg))?;
         if p.result.is_ok() && p.rec.insts.len() == 1 {
             accepted.push(fill);
             if kinds.is_none() {
                 let i = &p.rec.insts[0];
-                let n_before = prefix.len() - (i.result_type.is_some() as usize) - (i.result_id.is_some() as usize);
+                let n_before = prefix.len() + wrapped as usize;
                 kinds = Some(i.operands.iter().skip(n_before + 1).map(gram::dr_variant_name).collect());
             }
         }
@@ -176,13 +186,22 @@ pub fn run(cfg: &Cfg, rep: &mut Report) {
         // reference (grammar) sequence: enumerant list / ascending-bit concatenation
         let want: Vec<(K, Q)> = d.params_seq(k, v);
         let want_kinds: Vec<&str> = want.iter().map(|(k, _)| parsed_variant(*k)).collect();
-        let (accepted, parsed_kinds) = match observe_parser(k, v) {
+        let n_car = carriers(k).len();
+        if n_car == 0 {
+            r.inconclusive.push(format!("no carrier instruction for parameterised kind {}", kind_name(k)));
+            return;
+        }
+        for obs in 0..n_car * 2 {
+        let (ci, wrapped) = (obs / 2, obs % 2 == 1);
+        let via = format!("{}Op{}", if wrapped { "OpSpecConstantOp wrapping " } else { "" }, carriers(k)[ci].0);
+        let (accepted, parsed_kinds) = match observe_parser(k, v, ci, wrapped) {
             Ok(x) => x,
             Err(e) => {
-                r.violation(format!("C17:parser-panic:{}", key), e, rp());
+                r.violation(format!("C17:parser-panic:{}", key), format!("{} (in {})", e, via), rp());
                 return;
             }
         };
+        r.seen("parser_observed_through", via.clone());
         let sort = |v: &[&str]| {
             let mut s: Vec<String> = v.iter().map(|x| x.to_string()).collect();
             s.sort();
@@ -191,13 +210,13 @@ pub fn run(cfg: &Cfg, rep: &mut Report) {
         let pk: Vec<&str> = parsed_kinds.iter().map(|s| s.as_str()).collect();
         let (a, b, c) = if is_mask { (sort(&refl_kinds), sort(&pk), sort(&want_kinds)) } else { (refl_kinds.iter().map(|s| s.to_string()).collect(), parsed_kinds.clone(), want_kinds.iter().map(|s| s.to_string()).collect()) };
         if accepted.is_empty() {
-            r.violation(format!("C17:parser-rejects:{}", key), format!("parser accepts {} value {} with no number (0..20) of zero filler words", kind_name(k), v), rp());
+            r.violation(format!("C17:parser-rejects:{}", key), format!("parser accepts {} value {} with no number (0..20) of zero filler words (in {})", kind_name(k), v, via), rp());
         } else {
             if a != b {
-                r.violation(format!("C17:reflection-vs-parser:{}", key), format!("{} value {}: additional_operands() = {:?}, parser consumed {:?}", kind_name(k), v, refl_kinds, parsed_kinds), rp());
+                r.violation(format!("C17:reflection-vs-parser:{}", key), format!("{} value {} in {}: additional_operands() = {:?}, parser consumed {:?}", kind_name(k), v, via, refl_kinds, parsed_kinds), rp());
             }
             if b != c {
-                r.violation(format!("C17:parser-vs-grammar:{}", key), format!("{} value {}: parser consumed {:?}, grammar lists {:?}", kind_name(k), v, parsed_kinds, want_kinds), rp());
+                r.violation(format!("C17:parser-vs-grammar:{}", key), format!("{} value {} in {}: parser consumed {:?}, grammar lists {:?}", kind_name(k), v, via, parsed_kinds, want_kinds), rp());
             }
             // for masks the binary order is ascending bit order: the parser must deliver exactly that sequence
             if is_mask && pk != want_kinds {
@@ -207,7 +226,7 @@ pub fn run(cfg: &Cfg, rep: &mut Report) {
             let words_expected: usize = want.len();
             let variadic = want.iter().any(|(_, q)| *q != Q::One);
             if !variadic && accepted != vec![words_expected] {
-                r.violation(format!("C17:parser-wordcount:{}", key), format!("{} value {}: parser accepts {:?} filler words, grammar needs exactly {}", kind_name(k), v, accepted, words_expected), rp());
+                r.violation(format!("C17:parser-wordcount:{}", key), format!("{} value {} in {}: parser accepts {:?} filler words, grammar needs exactly {}", kind_name(k), v, via, accepted, words_expected), rp());
             }
             if variadic {
                 // The quantifier of an enumerant parameter (BankBitsINTEL's variadic literal list) is
@@ -219,6 +238,9 @@ pub fn run(cfg: &Cfg, rep: &mut Report) {
                 }
                 r.count("variadic_parameter_lists_not_judged_for_count", 1);
             }
+        }
+        if obs + 1 < n_car * 2 {
+            continue;
         }
         if a != c {
             r.violation(format!("C17:reflection-vs-grammar:{}", key), format!("{} value {}: additional_operands() = {:?}, grammar lists {:?}", kind_name(k), v, refl_kinds, want_kinds), rp());
@@ -242,6 +264,7 @@ pub fn run(cfg: &Cfg, rep: &mut Report) {
             r.nontrivial(format!("param:{}:{}", kind_name(k), v));
         }
         r.evaluations += 21;
+        }
     });
 
     // ---- (b) capabilities / extensions
